@@ -136,6 +136,12 @@ impl Peer {
         Ok(())
     }
 
+    /// the next four bytes, without consuming them
+    pub async fn peek4(&mut self) -> Option<[u8; 4]> {
+        self.fill(4).await.ok()?;
+        Some([self.buf[0], self.buf[1], self.buf[2], self.buf[3]])
+    }
+
     pub async fn recv_header(&mut self) -> Result<[u8; 8], PeerError> {
         self.fill(8).await?;
         let h = self.buf.split_to(8);
